@@ -200,7 +200,7 @@ impl TransformerContext {
 impl InputList {
 //@item src/events.rs :: impl InputList :: fn has_element_after
 //@ ensures
-//@ - r == element_after(self.events@, end as int)     @@C11.detect.element_after
+//@ - r == element_after(self.events@, end as int)     @@C11.detect.element_after @@C05.detect.element_after @@C03.detect.element_after @@C02.detect.element_after
 //@ loop 1
 //@ iter it
 //@ invariant
